@@ -88,7 +88,18 @@ def cases(tier, inst):
         for t in trees_by_depth(leaves2()[:4], 2):
             if Q.depth(t) == 2:
                 yield ("cond2", t)
-    # selected expressions with falsy values, with and without a condition
+    # ONE expression object (val = x.p) in condition position in one place and as a value (operand, selected) elsewhere
+    # in the same query, over falsy data: whichever role is evaluated first, the other one is read as what it is
+    xp_, xs_, xq_ = A(X, "p"), A(X, "s"), A(X, "q")
+    for val in (xp_, xs_, A(X, "flag")):
+        zero = L(0) if val == xp_ else (L("") if val == xs_ else L(False))
+        for t in (("or", ("and", ("cmp", "ge", xq_, L(0)), ("t", val)), ("cmp", "eq", val, zero)),
+                  ("or", ("cmp", "eq", val, zero), ("and", ("cmp", "eq", xq_, L(1)), ("t", val))),
+                  ("and", ("or", ("t", val), ("cmp", "eq", xq_, L(0))), ("cmp", "ne", val, L(2))),
+                  ("or", ("and", ("t", val), ("cmp", "eq", xq_, L(1))), ("cmp", "eq", val, zero))):
+            yield ("roles", t, (X,))
+            yield ("roles", t, (X, val))
+
     for sel in SELS:
         yield ("sel", sel, None)
         for c in REP1 + [("cmp", "ge", A(X, "p"), L(0))]:
@@ -134,6 +145,8 @@ def query_of(case):
         return ("Q", "an", "setof", (X,), (case[1],), (VX,)), "query"
     if fam == "cond2":
         return ("Q", "an", "setof", (X, Y), (case[1],), (VX, VY)), "query"
+    if fam == "roles":
+        return ("Q", "an", "setof", tuple(case[2]), (case[1],), (VX,)), "query"
     if fam in ("sel", "flat"):
         return ("Q", "an", "setof", tuple(case[1]), (case[2],) if case[2] else (), (VX,)), "query"
     if fam == "esel":
@@ -187,6 +200,14 @@ def run_case(case, inst):
                 got = exc_obs(e)
             exp = [(ref.value(q[3], env),) for env in ref.solutions(q)]
             total = None
+        elif fam == "roles":
+            try:
+                obj, b = Q.build(q, world, inst, share_terms="all")
+                got = [tuple(r[s] for s in b.sel[q]) for r in obj.evaluate()]
+            except Exception as e:
+                got = exc_obs(e)
+            exp = [tuple(ref.value(s, env) for s in q[3]) for env in ref.solutions(q)]
+            total = len(world["FA"])
         else:
             got = eval_rows(q, world, inst)
             sols = ref.solutions(q)
@@ -195,7 +216,7 @@ def run_case(case, inst):
         return got, exp, total
 
     got, exp, total = run_isolated(body)
-    d = diff_rows(got, exp, count=fam in ("cond1", "cond2", "field", "fieldm", "ctor", "flat", "esel"))
+    d = diff_rows(got, exp, count=fam in ("cond1", "cond2", "field", "fieldm", "ctor", "flat", "esel", "roles"))
     res = {"ok": d is None, "nontrivial": len(exp) > 0 and (total is None or len(exp) < total) if fam != "cond1"
            else 0 < len(exp) < len(FA), "transitions": 1 + (0 if is_exc(got) else len(got)),
            "tags": [f"family={fam}"], "outcome": f"{fam}:{len(exp)}"}
